@@ -85,6 +85,35 @@ claim("C09", "model_checking",
       "documents of the pinned tree are listed one by one in known_findings.json.",
       "TLA+ FixSched spec: TLC theorem + schedule trace validation + end-to-end fixed-point oracle")
 
+OBS_NOTE = ("Trusted: TLC; the parsing of report lines / API result objects into canonical values; values travel to TLC as SHA-1 digests "
+            "of their canonical JSON (equality is what is decided; the harness prints the differing values on rejection).")
+
+claim("C12", "model_checking",
+      "spec/Obs.tla: one unlogged function verdict[rule] per document must explain every observation. For each document the harness scans "
+      "with each rule alone, all rules, the default set and the default set minus each rule (about 95 configurations); every run "
+      "contributes one observation per enabled rule (its projection of the output, empty included) and a forbidden observation for any "
+      "report of a rule that is not enabled. TLC (Trace_Obs, batched) accepts a document's log iff the output with a set enabled is "
+      "exactly the union of what each rule reports alone. MC_Obs checks that a bound verdict can never change.",
+      OBS_NOTE, "TLA+ Obs spec (single verdict function as unlogged variable) + batched trace validation")
+
+claim("C13", "model_checking",
+      "spec/Obs.tla with key = (document, mode): the solo run binds what a run says about a document (reports, pragma errors, fixed "
+      "bytes); multi-file invocations in which EVERY ordered pair of a pool of 61 (quick) / 127 (thorough) documents is adjacent once per "
+      "mode (cyclic sequences of every stride; random triples in thorough), with --continue-on-error so that failing documents are part "
+      "of the histories, and one API object reused for the whole pool, must agree (Trace_Obs). The pool holds documents that leave every "
+      "parser/rule component with cross-line state non-initial (unclosed fence, open list, pending and defined link definitions, heading "
+      "history, fence/list/hr style memories, pragma ranges, documents that make the parser fail after registering state).",
+      OBS_NOTE, "TLA+ Obs spec + pairwise-complete file histories validated as traces")
+
+claim("C16", "model_checking",
+      "spec/Obs.tla with keys scan/<selection> and fix/<selection> per document: observations from `scan file`, `scan-stdin`, "
+      "api.scan_string, api.scan_path, `fix file`, api.fix_string, api.fix_path under four rule selections expressed both on the command "
+      "line and through the API (ids and aliases), for documents with/without final newline, CRLF, lone CR, non-ASCII text and unusual "
+      "separators; plus CLI scan/fix in child processes under every log level x --stack-trace x --log-file, including a multi-file run "
+      "with a failing file and --continue-on-error, whose result lines, exit code and file contents must equal the run without "
+      "diagnostics options. All logs validated by TLC (Trace_Obs).",
+      OBS_NOTE, "TLA+ Obs spec + entry-point / diagnostics observations validated as traces")
+
 # ---------------------------------------------------------------------------------------------
 if __name__ == "__main__":
     props = [json.loads(l) for l in open("properties.jsonl")]
